@@ -263,6 +263,14 @@ M: List[Tuple[str, str, str, str, str]] = [
      "            except ssl.SSLWantWriteError:   # Try again later\n                logger.warning(\n                    'SSLWantWriteError while trying to flush to client, will retry',\n                )\n                return False\n", ""),
     ('c11-cert-cache-by-first-label', 'C11', 'proxy/http/proxy/server.py',
      "        return os.path.join(ca_cert_dir, '%s.pem' % host)", "        return os.path.join(ca_cert_dir, '%s.pem' % host.split('.')[-1])"),
+    # ---- endless loops (C06 / C05) -------------------------------------------------
+    ('c06-revert-duplicate-content-length-fix', 'C06', 'proxy/http/parser/parser.py',
+     "        if k == b'content-length':\n            # The last Content-Length line wins in self.headers,\n            # keep the flag in line with the value that will be used.\n            self._content_expected = int(value) > 0",
+     "        if k == b'content-length' and int(value) > 0:\n            self._content_expected = True"),
+    ('c06-revert-negative-chunk-size-fix', 'C06', 'proxy/http/parser/chunk.py',
+     "                if self.size < 0:\n                    raise ValueError('Invalid chunk size %r' % line)\n", ""),
+    ('c05-upstream-negative-chunk-spins', 'C05', 'proxy/http/parser/chunk.py',
+     "                if self.size < 0:\n                    raise ValueError('Invalid chunk size %r' % line)\n", ""),
 ]
 
 
